@@ -108,10 +108,9 @@ Qed.
 
 Lemma filter_ok_ext : forall nv s1 s2 f, (forall x, In x (filter_vars f) -> s1 x = s2 x) -> filter_ok nv s1 f = filter_ok nv s2 f.
 Proof.
-  intros nv s1 s2 [x op z | x y | x y] H; cbn in *.
+  intros nv s1 s2 [x op z | x op y] H; cbn in *.
   - rewrite (H x); auto.
-  - rewrite (H x), (H y); auto.
-  - rewrite (H x), (H y); auto.
+  - rewrite (H x), (H y) by auto. reflexivity.
 Qed.
 
 Lemma filters_ok_ext : forall nv s1 s2 fs,
